@@ -40,10 +40,13 @@ DIFF = [{"c": 1.0, "w": 0.0}, 0.6, {"c": 0.3, "default": 0.9}, {"w": 0.4, "c": 0
 
 def spaces(tier):
     out = []
-    shapes = [(2, 1, 1), (3, 1, 1), (2, 2, 1), (3, 2, 1), (2, 2, 2), (3, 2, 2), (4, 4, 1), (4, 3, 2), (5, 1, 1)]
+    # every ordering of unequal axis lengths occurs (w > h, h > w, d > w, ...): index arithmetic that mixes up two axes
+    # cannot cancel
+    shapes = [(2, 1, 1), (3, 1, 1), (2, 2, 1), (3, 2, 1), (2, 3, 1), (1, 2, 3), (2, 2, 2), (3, 2, 2), (2, 3, 2), (4, 4, 1), (4, 3, 2),
+              (2, 3, 4), (5, 1, 1), (1, 4, 1)]
     bcs = [dict(zip("xyz", c)) for c in itertools.product(["reflecting", "periodical"], repeat=3)]
     if tier == "quick":
-        shapes = [(2, 1, 1), (3, 1, 1), (3, 2, 1), (2, 2, 2)]
+        shapes = [(2, 1, 1), (3, 1, 1), (3, 2, 1), (2, 3, 1), (1, 2, 3), (2, 2, 2)]
         bcs = [bcs[0], bcs[7], bcs[5]]
     for (w, h, d) in shapes:
         n = w * h * d
